@@ -551,6 +551,19 @@ def run(tier, seed):
     for i in bad[:20]:
         chk.disagree("hand matcher != Python re on the source pattern", sp_cases[i][1])
 
+    # ---- 5. outside the recorded domain (diagnostic only, never an alarm): HTML bytes that are not UTF-8 ----
+    try:
+        from django.http import HttpRequest, HttpResponse
+        from django_components.middleware import ComponentDependencyMiddleware
+        resp = HttpResponse("<html><body>caf\xe9</body></html>", content_type="text/html; charset=iso-8859-1")
+        try:
+            got = ComponentDependencyMiddleware(lambda r: resp)(HttpRequest()).content
+            obs = "returned %r" % got[:80]
+        except Exception as e:  # noqa
+            obs = "raised %s" % type(e).__name__
+        chk.extra["outside_domain_observation"] = "text/html response in charset iso-8859-1 with a non-ASCII byte through the middleware: " + obs
+    except Exception as e:  # noqa
+        chk.extra["outside_domain_observation"] = "not measured: %r" % (e,)
     chk.extra["feature_histogram"] = dict(chk.extra_hist)
     chk.extra["interpretation"] = ("'a </head> end tag' is read as the documented pattern </head\\s*> (lower-case name, optional Unicode "
                                    "whitespace before '>'); </HEAD> is text for the code and for the specification")
